@@ -211,8 +211,8 @@ func buildTrees() []*tree {
 	}
 	specs := map[string][]tfile{
 		"flat": {{"a.ecal", libText(3), 3}, {"b.ecal", libText(5), 5}, {path: "readme.txt", data: "plain text\n"}},
-		"nested": {{"lib/a.ecal", libText(2), 2}, {"lib/sub/b.ecal", libText(7), 7}, {"lib/sub/deep/er/c.ecal", libText(11), 11},
-			{"other/d.ecal", libText(13), 13}, {path: "other/notes.md", data: "# notes\n#### not a marker\n"}},
+		"nested": {{"lib/a.ecal", libText(2), 2}, {"lib/sub/b.ecal", libText(3), 3}, {"lib/sub/deep/er/c.ecal", libText(4), 4},
+			{"other/d.ecal", libText(5), 5}, {path: "other/notes.md", data: "# notes\n#### not a marker\n"}},
 		"empty": {{"lib/a.ecal", libText(4), 4}, {path: "empty.dat", data: ""}, {path: "lib/empty.txt", data: ""}, {"z/e.ecal", libText(9), 9}},
 		"binary": {{"lib/a.ecal", libText(6), 6}, {path: "bin/all256.bin", data: allBytes()},
 			// incompressible, so the archive stores it literally: the marker text occurs inside the archive
@@ -220,13 +220,13 @@ func buildTrees() []*tree {
 			{path: "bin/hashes.bin", data: strings.Repeat("####", 64) + "\n"}},
 		"spaces": {{"my lib/b c.ecal", libText(8), 8}, {"my lib/ sub dir /d  e.ecal", libText(10), 10}, {path: "a file.txt", data: " \n "},
 			{" lead.ecal", libText(12), 12}},
-		"large": {{"lib/a.ecal", libText(14), 14}},
+		"large": {{"lib/a.ecal", libText(1), 1}},
 	}
 	for i := 0; i < 12; i++ {
 		specs["large"] = append(specs["large"], tfile{path: fmt.Sprintf("data/d%d/blob%02d.bin", i%3, i), data: noise(i+1, 700+i)})
 	}
 	for i := 0; i < 3; i++ {
-		specs["large"] = append(specs["large"], tfile{fmt.Sprintf("mod/m%d.ecal", i), libText(20 + i), 20 + i})
+		specs["large"] = append(specs["large"], tfile{fmt.Sprintf("mod/m%d.ecal", i), libText(2 + i), 2 + i})
 	}
 
 	var res []*tree
@@ -252,6 +252,9 @@ func buildTrees() []*tree {
 		}
 		entry := "# entry\n" + strings.Join(imports, "\n") + "\nres := " + strings.Join(terms, " + ") + "\nres + 1\n"
 		tr.files = append(tr.files, tfile{path: entryName, data: entry})
+		if code > 125 {
+			panic("c20: keep the exit codes portable")
+		}
 		tr.code = code
 		for _, f := range tr.files {
 			tr.want[f.path] = f.data
